@@ -21,13 +21,17 @@ BUDGET = {'quick': 100, 'thorough': 1500}
 N = {'quick': 800, 'thorough': 12000}
 TRANSFORMS = ['rekey0', 'rekey-sparse', 'reorder', 'reverse', 'rename', 'signature', 'rewrite-base',
               'rewrite-query', 'query-key', 'compose']
+INTERNAL_NAMES = ['eta_1', 'eta_2', 'mv_1', 'mf_1', 'mv_query', 'gamma-_1', 'eta_3', 'mf_2']
 REQUIRED = {'quick': {'t_' + t: 20 for t in TRANSFORMS}, 'thorough': {'t_' + t: 200 for t in TRANSFORMS}}
 HOSTILE_NAMES = ['A', 'B1', 'x1', 'a-b', 'a_b', 'Topp', 'bottom', 'Z9', 'q-1_x', 'signature1', 'v', 'f', 'nf']
 
 
 def cases(tier, seed):
-    return [{'prop': ID, 'seed': seed, 'idx': i, 'transform': TRANSFORMS[i % len(TRANSFORMS)]}
-            for i in range(N[tier])]
+    out = [{'prop': ID, 'seed': seed, 'idx': i, 'transform': TRANSFORMS[i % len(TRANSFORMS)]}
+           for i in range(N[tier])]
+    for i in range(0, N[tier], 40):
+        out[i]['transform'] = 'rename-internal'      # one-shot subprocess, see vf/rename_helper.py
+    return out
 
 
 def rewrite_cond(rng, B, A, sig):
@@ -54,11 +58,59 @@ def rewrite_cond(rng, B, A, sig):
     return Not(Not(B)), A
 
 
+def run_internal(case, rng, res):
+    import json as _json, os, subprocess, tempfile
+    sig, conds, fam = gen.gen_base(rng, 'strong', family='rand', nat=rng.randint(2, 4), ncond=rng.randint(1, 4))
+    qs = gen.gen_queries(rng, sig, conds, 4, extra_atom_p=0.0)
+    m = dict(zip(sig, rng.sample(INTERNAL_NAMES, len(sig))))
+    ren = lambda f: fml.rename(f, m)
+    T = lambda B, A: fml.cond_text(B, A, 'min')
+    cfgs = [list(c) for c in impl.CONFIGS]
+    d = {'sig': sig, 'conds': [T(B, A) for B, A in conds], 'queries': [T(B, A) for B, A in qs],
+         'sig2': [m[a] for a in sig], 'conds2': [T(ren(B), ren(A)) for B, A in conds],
+         'queries2': [T(ren(B), ren(A)) for B, A in qs], 'weakly': False, 'configs': cfgs}
+    fd, path = tempfile.mkstemp(suffix='.json', prefix='vfc12_')
+    os.write(fd, _json.dumps(d).encode())
+    os.close(fd)
+    try:
+        r = subprocess.run(['/venv/bin/python', os.path.join(os.path.dirname(os.path.dirname(__file__)), 'rename_helper.py'), path],
+                           capture_output=True, text=True, timeout=150, env=dict(os.environ, INFOCF_LOGLEVEL='ERROR'))
+    except subprocess.TimeoutExpired:
+        res['inconclusive'].append('rename-internal subprocess watchdog')
+        return res
+    finally:
+        os.remove(path)
+    line = [x for x in r.stdout.splitlines() if x.startswith('RESULT ')]
+    if not line:
+        res['inconclusive'].append('rename-internal subprocess failed: ' + r.stderr[-200:])
+        return res
+    out = _json.loads(line[-1][7:])
+    res['counters']['t_rename-internal'] = 1
+    bdesc = base_desc(sig, conds)
+    for (system, p) in impl.CONFIGS:
+        cname = impl.cfg_name(system, p)
+        a, b = out.get('plain:' + cname), out.get('renamed:' + cname)
+        res['evals'] += 1
+        res['nontrivial'].append(h(bdesc, m, cname))
+        if isinstance(a, str):
+            res['inconclusive'].append('plain presentation raised in subprocess: %s' % a)
+        elif isinstance(b, str):
+            res['violations'].append({'sig': 'presentation:rename-to-internal-symbol-name:exception:%s' % b.split()[1].rstrip(':'),
+                                      'detail': {'base': bdesc, 'rename': m, 'config': cname, 'error': b, 'plain_answers': a}})
+        elif a != b:
+            res['violations'].append({'sig': 'presentation:rename-to-internal-symbol-name:%s:answer-changed' % cname,
+                                      'detail': {'base': bdesc, 'rename': m, 'plain_answers': a, 'renamed_answers': b}})
+    res['sample'] = {'base': bdesc, 'transform': 'rename-internal', 'rename': m}
+    return res
+
+
 def run_case(case):
     rng = gen.rng_for(case['seed'], ID, case['idx'])
     tname = case['transform']
     res = {'evals': 0, 'nontrivial': [], 'violations': [], 'inconclusive': [], 'counters': {}}
     cnt = res['counters']
+    if tname == 'rename-internal':
+        return run_internal(case, rng, res)
 
     def bump(k, sub=None, n=1):
         if sub is None:
